@@ -159,6 +159,48 @@ def r23_3(ctx, rep):
                "accepted and mapped to some element", path=cfg.describe(w) if w else "")
 
 
+@SPEC.rule(
+    "R23.4",
+    "an unknown subscript is not an absent subscript: in get_indexed_symbol the whole-dimension slice `slice(None, None, 1)` "
+    "is chosen only on paths where the written subscript is known to be None (no subscript for this dimension); a subscript "
+    "whose value get_integer cannot determine (parameter without value, variable) must raise, otherwise `x[k]` silently "
+    "means all of x (decided by a path-sensitive None-ness analysis of the handler)",
+)
+def r23_4(ctx, rep):
+    from ..cfg import CFG, explore_facts, none_facts_transfer
+    R = "R23.4"
+    fn = ctx.func(GEN, "Generator.get_indexed_symbol", R)
+    site = GEN + ":Generator.get_indexed_symbol"
+    cfg = CFG(fn, R)
+    # the per-dimension loop: `for <index>, <dim> in zip(<index_array>, <shape>)`
+    loops = [x for x in cfg.nodes if x.kind == "iter" and isinstance(x.ast.target, ast.Tuple) and len(x.ast.target.elts) == 2
+             and isinstance(x.ast.iter, ast.Call) and call_name(x.ast.iter) == "zip" and not isinstance(x.ast.target.elts[0], ast.Tuple)
+             and all(isinstance(e, ast.Name) for e in x.ast.target.elts)]
+    fulls = [x for x in cfg.stmts() if isinstance(x.ast, ast.Assign) and isinstance(x.ast.value, ast.Call) and is_name(x.ast.value.func, "slice")
+             and len(x.ast.value.args) == 3 and all(isinstance(a, ast.Constant) for a in x.ast.value.args) and x.ast.value.args[0].value is None
+             and x.ast.value.args[1].value is None]
+    if not loops or not fulls:
+        raise MechanismMissing(R, "per-dimension loop or the whole-dimension slice not found in get_indexed_symbol")
+    n = 0
+    for lp in loops:
+        idx = lp.ast.target.elts[0].id
+        body_entry = [s_ for s_ in cfg.succ[lp.id] if cfg.nodes[s_].kind == "assume" and cfg.nodes[s_].taken]
+        if not body_entry:
+            continue
+        states = explore_facts(cfg, none_facts_transfer, start=body_entry[0])
+        for f in fulls:
+            reached = states.get(f.id, set())
+            if not reached:
+                continue
+            n += 1
+            bad = [st for st in reached if ("none", idx) not in st]
+            rep.ob(R, site, "whole-dimension slice only for an absent subscript", not bad,
+                   "`%s` can be reached while the written subscript `%s` is not known to be None (facts on such a path: %s): a subscript "
+                   "whose value cannot be determined is silently replaced by the whole dimension" % (norm(f.ast), idx, sorted(bad[0]) if bad else ""))
+    if n < 1:
+        raise MechanismMissing(R, "the whole-dimension slice is not reachable from the per-dimension loop")
+
+
 # -- seeded variants ---------------------------------------------------------
 from ._mut import replace_in_func  # noqa: E402
 
@@ -212,6 +254,18 @@ def _m4(mod):
                         if isinstance(b, list) and n in b and p_ is not new:
                             b[b.index(n)] = new
                             return True
+        return False
+
+    return mod if replace_in_func(mod, "Generator.get_indexed_symbol", edit) else None
+
+
+@SPEC.mutant("unknown subscript value treated as no subscript", GEN, "R23.4", "whole-dimension slice")
+def _m_unknown(mod):
+    def edit(fn):
+        for n in ast.walk(fn):
+            if isinstance(n, ast.If) and norm(n.test).endswith(" is None") and n.body and isinstance(n.body[0], ast.Raise) and "no known value" in norm(n.body[0]):
+                n.body = [ast.Pass()]
+                return True
         return False
 
     return mod if replace_in_func(mod, "Generator.get_indexed_symbol", edit) else None
